@@ -452,6 +452,19 @@ both('t_macg_core', MC,
       'r(x, s) <-- k(x), agg s = sum(v1) in p(x, v1), agg s2 = sum(v2) in p(x + 1, v2), if s2 > s',
       'a(t) <-- k(t), k(t1), agg c = count() in edge(t, t1), if c > 1',
       'b(x, s) <-- k(x), k(v), if v > x, agg v1 = sum(v2) in p(x, v2), let s = v1 + 1'], tags=['twin'])
+# a macro with an empty body, invoked in the middle of another macro body / of a disjunct
+MACE = ['macro nothing() { }', 'macro wrap($x: ident) { k($x), nothing!(), a($x) }']
+both('t_mace_sugar', MC, [], body=['pub struct P;'] + [d + ';' for d in MC] + MACE + [
+     'r(x, x) <-- wrap!(x);',
+     'r(x, x) <-- (k(x), nothing!(), p(x, _) | a(x), if *x > 5);',
+     'a(x) <-- k(x), nothing!();',
+     'b(x, y) <-- nothing!(), k(x), wrap!(y);'], tags=['twin'], twin=('t_mace_core', 'L'))
+both('t_mace_core', MC,
+     ['r(x, x) <-- k(x), a(x)',
+      'r(x, x) <-- k(x), p(x, _)',
+      'r(x, x) <-- a(x), if *x > 5',
+      'a(x) <-- k(x)',
+      'b(x, y) <-- k(x), k(y), a(y)'], tags=['twin'])
 # a disjunction inside a macro body whose locals are private to one disjunct each
 MACD = ['macro alt($a: expr, $b: expr) { (edge($a, t1), p(t1, $b) | p($a, t2), edge(t2, $b)) }',
         'macro alt2($a: expr, $b: expr) { k($a), (alt!($a, m) | edge($a, m)), edge(m, $b) }']
